@@ -1399,6 +1399,18 @@ class EventElement(EDXMLEvent):
             self._sort()
         return self.__element
 
+    def __deepcopy__(self, memodict=None):
+        event = self.__class__.__new__(self.__class__)
+        for name, value in self.__dict__.items():
+            if name not in ('_EventElement__element', '_properties', '_attachments'):
+                setattr(event, name, deepcopy(value, memodict))
+        event.__element = deepcopy(self.__element, memodict)
+        # The property and attachment sets of this event update the XML element
+        # of this event. The copy generates its own sets when it needs them.
+        event._properties = None
+        event._attachments = None
+        return event
+
     def copy(self):
         """
 
